@@ -112,3 +112,21 @@ Proof.
   intros puf allow s x r H. apply run_from in H. destruct H as [[A1 A2] [B1 B2]]. cbv zeta. auto.
 Qed.
 Print Assumptions C06_entries_were_sent.
+
+From Coq Require Import Lia.
+
+(* non-vacuity: a history on one parser -- template 256 = [Ipv4SrcAddr/4], then its redefinition
+   [L4SrcPort/2, L4DstPort/2], then data -- decodes the data with the LATEST definition (one
+   record of two 2-byte values), and the cache holds exactly that definition *)
+Example C06_example :
+  let t1 := [x00; x09; x00; x01; x00; x00; x00; x01; x00; x00; x00; x02; x00; x00; x00; x03; x00; x00; x00; x04; x00; x00; x00; x0c; x01; x00; x00; x01; x00; x08; x00; x04] in
+  let t2 := [x00; x09; x00; x01; x00; x00; x00; x01; x00; x00; x00; x02; x00; x00; x00; x04; x00; x00; x00; x04; x00; x00; x00; x10; x01; x00; x00; x02; x00; x07; x00; x02; x00; x0b; x00; x02] in
+  let d := [x00; x09; x00; x01; x00; x00; x00; x01; x00; x00; x00; x02; x00; x00; x00; x05; x00; x00; x00; x04; x01; x00; x00; x08; x01; xbb; x00; x35] in
+  match parse_bytes true (allow_list default_allowed) empty_state (t1 ++ t2 ++ d) with
+  | Some [(PV9 _, _); (PV9 _, _); (PV9 p, s)] =>
+      v9_sets p = [ {| fs_id := 256; fs_len := 8;
+                       fs_body := V9Data [[(v9_from_u16 7, VNum (U16 443)); (v9_from_u16 11, VNum (U16 53))]] [] |} ]
+      /\ option_map t_count (lookup 256 (v9_t (st9 s))) = Some 2%N
+  | _ => False
+  end.
+Proof. vm_compute. split; reflexivity. Qed.
